@@ -101,6 +101,10 @@ class Form:
         return all(c % (1 << s) == 0 for c in list(self.bits.values()) + list(self.tails.values()))
 
     def and_mask(self, mask: int) -> "Form":
+        if mask < 0 and ((~mask) & ((~mask) + 1)) == 0:
+            # x & ~(2**s - 1) = x - (x & (2**s - 1)): clearing the low s bits
+            low = (~mask)
+            return self - self.and_mask(low)
         if self.const != 0 and mask >= 0 and (mask & (mask + 1)) == 0:
             k = mask.bit_length()  # mask = 2**k - 1
             x = Form(self.bits, self.tails, 0)
